@@ -1,0 +1,79 @@
+//go:build verif
+// +build verif
+
+package media
+
+import (
+	"sync"
+	"time"
+)
+
+// Registry inspectors and the idle-close tick for the verification harness
+// (build tag verif only; properties C05 / C20).
+
+// VerifIdleTask is one posted zero-consumers close task.
+type VerifIdleTask struct {
+	Stream       *Stream
+	D            time.Duration
+	ClosedStatus int32
+	task         *runZeroConsumersClose
+}
+
+var (
+	verifTasksMu sync.Mutex
+	verifTasks   []*VerifIdleTask
+)
+
+// verifTaskPosted records every task handed to the scheduler by runZeroConsumersCloseTask.
+func verifTaskPosted(t *runZeroConsumersClose) {
+	verifTasksMu.Lock()
+	verifTasks = append(verifTasks, &VerifIdleTask{Stream: t.s, D: t.d, ClosedStatus: t.closedStats, task: t})
+	verifTasksMu.Unlock()
+}
+
+// VerifIdleTasks returns the tasks posted so far (in posting order).
+func VerifIdleTasks() []*VerifIdleTask {
+	verifTasksMu.Lock()
+	defer verifTasksMu.Unlock()
+	return append([]*VerifIdleTask(nil), verifTasks...)
+}
+
+// VerifResetIdleTasks forgets the recorded tasks (the scheduler keeps its own copies).
+func VerifResetIdleTasks() {
+	verifTasksMu.Lock()
+	verifTasks = nil
+	verifTasksMu.Unlock()
+}
+
+// Tick runs the real idle-close decision of this task once, as the scheduler would.
+// d >= 0 replaces the task's period for this one decision (the harness cannot wait
+// 5 minutes); d < 0 keeps it.  Returns the task's closed flag and whether Next() says
+// the task is finished.
+func (t *VerifIdleTask) Tick(d time.Duration) (closed bool, finished bool) {
+	old := t.task.d
+	if d >= 0 {
+		t.task.d = d
+	}
+	defer func() { t.task.d = old }()
+	t.task.run()
+	return t.task.closed, t.task.Next(time.Now()).IsZero()
+}
+
+// VerifRegistry returns the raw content of the stream registry (no canonicalisation,
+// no filtering).
+func VerifRegistry() map[string]*Stream {
+	m := map[string]*Stream{}
+	streams.Range(func(k, v interface{}) bool {
+		m[k.(string)] = v.(*Stream)
+		return true
+	})
+	return m
+}
+
+// VerifClearRegistry empties the registry without closing anything.
+func VerifClearRegistry() {
+	streams.Range(func(k, v interface{}) bool {
+		streams.Delete(k)
+		return true
+	})
+}
